@@ -131,3 +131,30 @@ def escape_check(kind, mode, s, flags, name):
 def _regex_accepts(m, pat, flags, name):
     c = m.compile(pat, flags=flags)._matcher
     return bool(name) and any(p.fullmatch(name) for p in c._include) and not any(p.fullmatch(name) for p in (c._exclude or ()))
+
+
+def rawchars_agree(kind, mode, p, flags, is_bytes, name):
+    """Replay of a C20 obligation on one concrete name (or of the exception-class comparison)."""
+    from props.c20 import decode, unescape_plain, Predicted
+    m = _mod(mode)
+    fn = getattr(m, 'fnmatch' if mode == 'fn' else 'globmatch')
+    cv = (lambda t: t.encode('latin-1')) if is_bytes else (lambda t: t)
+    if kind == 'raw':
+        try:
+            ref, pred = decode(p, is_bytes), None
+        except Predicted as ex:
+            ref, pred = None, ex.name
+        try:
+            m.compile(cv(p), flags=flags | m.RAWCHARS)
+            got = None
+        except Exception as ex:  # noqa: BLE001
+            got = type(ex).__name__
+        if pred or got:
+            return (pred == got) or (pred == 'KeyError' and got in ('KeyError', 'LookupError')) or (pred == 'ValueError' and got in ('ValueError', 'OverflowError'))
+        if name is None:
+            return True
+        return fn(name, cv(p), flags=flags | m.RAWCHARS) == fn(name, cv(ref), flags=flags)
+    ref = unescape_plain(p)
+    if name is None:
+        return True
+    return fn(name, cv(p), flags=flags) == fn(name, cv(ref), flags=flags)
